@@ -18,6 +18,7 @@ import TlsModel.Gen.Wrappers
     getall <tls13 0|1> <records>   records: type:ssl2:hex;...  -> everything _getNextRecord delivers
     asmnew | asm <op> <gen>        op: inRead inWrite setHandshake setClose setWrite
                                    gen: y<v> | stop | raise    -> state and outcome
+    fragment <recordSize> <hex>    payload lengths of the records _sendMsg cuts the buffer into
     alertpeek <tls13> <limit>      error path of _sendMsgThroughSocket: read on until a message, classify
     wrappers                       the generated blocking-wrapper shape facts
 -/
@@ -232,6 +233,11 @@ def handle (st : St) (toks : List String) : St × Option String :=
       let fuel := (upstream st).length + 2
       runR st (alertPeek cfg (t13 == "1") fuel tlsDefrag) (alertPeek cfg (t13 == "1") fuel tlsDefrag) f
     | none => (st, none)
+  | ["fragment", k, data] =>
+    match k.toNat?, ofHex data with
+    | some k, some data =>
+      (st, some (String.intercalate "," ((fragmentMsg k data).map fun f => toString f.length)))
+    | _, _ => (st, none)
   | ["asmnew"] => ({ st with asm := {} }, some (asmStr {}))
   | ["asmset", h, c, r, w, res] =>
     let b (x : String) := x == "1"
